@@ -3,6 +3,7 @@ import Mimic.Extracted.Variables
 import Mimic.Extracted.Charset
 import Mimic.Extracted.CodecSites
 import MimicProofs.Variables
+import MimicProofs.ExecuteCode
 /-!
 # C15 — Text crosses the wire in the negotiated character sets
 
@@ -340,5 +341,27 @@ example : clientOf sch (runEvs dc ⟨[], true⟩ [.handshake 8, .setStmt [.names
 example : (trace sch ucs dc colls ⟨[], true⟩ [.handshake 8, .setStmt [.names (some "sjis") none], .other]) =
     [("utf8mb4", "utf8mb4"), ("latin1", "sjis"), ("sjis", "sjis")] := by decide +kernel
 example : (runEvs dc ⟨[], true⟩ [.handshake 3]).alive = false := by decide +kernel   -- dec8 has no codec
+
+/-! ### the parsers themselves (`Mimic.Extracted.ParsersCode` / `ExecuteCode`, regenerated from `/repo` on every run) -/
+
+/-- **code level: the translated `parse_com_query` decodes with the client character set it is given and with nothing
+    else** — two environments whose decoders agree on that one character set (and on the type table) give the same SQL
+    text and the same attributes for every payload, whatever their other codecs, collations or encoders do -/
+theorem code_query_uses_only_client_charset (E1 E2 : Mimic.Py.Env (List Char)) (caps cs : Nat) (valid : List Nat)
+    (hv1 : ∀ n, E1.validType n = valid.contains n) (hv2 : ∀ n, E2.validType n = valid.contains n)
+    (hdec : E1.decode cs = E2.decode cs) (he1 : E1.decode cs [] = some E1.empty) (he2 : E2.decode cs [] = some E2.empty)
+    (data : Mimic.Py.Bytes) (hr : data.length < 2 ^ 63) :
+    (Mimic.Extracted.ParsersCode.parse_com_query E1 caps cs data).map (fun q => (q.sql, q.query_attrs))
+      = (Mimic.Extracted.ParsersCode.parse_com_query E2 caps cs data).map (fun q => (q.sql, q.query_attrs)) := by
+  rw [MimicProofs.ParsersCode.parse_com_query_eq E1 caps cs valid hv1 he1 data hr,
+    MimicProofs.ParsersCode.parse_com_query_eq E2 caps cs valid hv2 he2 data hr, hdec]
+
+/-- the same for the handshake response: user name, database, plugin name and connect attributes are decoded with the
+    character set of the collation the client announced in that very packet (`E.collation`), and with nothing else -/
+theorem code_handshake_uses_announced_charset (E1 E2 : Mimic.Py.Env Mimic.Py.Bytes) (caps : Nat)
+    (hc : E1.collation = E2.collation) (hd : E1.decode = E2.decode) (data : Mimic.Py.Bytes) :
+    MimicProofs.ParsersCode.toHs (Mimic.Extracted.ParsersCode.parse_handshake_response E1 caps data)
+      = MimicProofs.ParsersCode.toHs (Mimic.Extracted.ParsersCode.parse_handshake_response E2 caps data) := by
+  rw [MimicProofs.ParsersCode.parse_handshake_response_eq, MimicProofs.ParsersCode.parse_handshake_response_eq, hc, hd]
 
 end MimicProps.C15
